@@ -32,11 +32,17 @@ pub const MAX_SECS: u64 = 253402300799;
 
 pub fn model_token_bytes(secs: u64) -> [u8; 17] {
     let mut out = [b'@'; 17];
-    let mut i = 0;
-    while i < 16 {
-        let nib = ((secs >> (60 - 4 * i)) & 0xf) as u8;
-        out[1 + i] = b'a' + nib;
-        i += 1;
+    // two nested loops of 4 (small unwinding bound)
+    let mut o = 0;
+    while o < 4 {
+        let mut j = 0;
+        while j < 4 {
+            let i = o * 4 + j;
+            let nib = ((secs >> (60 - 4 * i)) & 0xf) as u8;
+            out[1 + i] = b'a' + nib;
+            j += 1;
+        }
+        o += 1;
     }
     out
 }
@@ -53,14 +59,18 @@ pub fn model_parse_bytes(b: &[u8]) -> Option<u64> {
         return None;
     }
     let mut v: u64 = 0;
-    let mut i = 1;
-    while i < 17 {
-        let c = b[i];
-        if c < b'a' || c > b'p' {
-            return None;
+    let mut o = 0;
+    while o < 4 {
+        let mut j = 0;
+        while j < 4 {
+            let c = b[1 + o * 4 + j];
+            if c < b'a' || c > b'p' {
+                return None;
+            }
+            v = (v << 4) | (c - b'a') as u64;
+            j += 1;
         }
-        v = (v << 4) | (c - b'a') as u64;
-        i += 1;
+        o += 1;
     }
     if v > MAX_SECS {
         return None;
